@@ -133,6 +133,7 @@ def run_problem(rec, prob, kwargs=None, key_prefix="", timeout_ms=60000, max_pat
     """Explore prob symbolically and discharge every item on every path."""
     kwargs = kwargs or {}
     n_items = 0
+    seen = rec.__dict__.setdefault("_seen_syntactic", set())
 
     def fn(ctx):
         mk = CtxSymMk()
@@ -182,8 +183,26 @@ def run_problem(rec, prob, kwargs=None, key_prefix="", timeout_ms=60000, max_pat
         items = res[1]
         for it in items:
             n_items += 1
+            sig = _signature(it)
+            if sig is not None and sig in seen:
+                rec.dedup = getattr(rec, "dedup", 0) + 1  # same terms already discharged syntactically on a sibling path
+                continue
+            n0 = len(rec.obligations)
             _discharge(rec, it, assumptions, mk, kwargs, key_prefix, timeout_ms, robust, per_entry_fallback)
+            if sig is not None and all(o.get("syntactic") and o["verdict"] == "unsat" for o in rec.obligations[n0:]):
+                seen.add(sig)
     return n_items
+
+
+def _signature(it):
+    """Identity of an item's terms (z3 ASTs are hash-consed, so re-executed paths rebuild identical ids)."""
+    if it.kind != "eq":
+        return None
+    try:
+        ca, ra = np.asarray(it.code, dtype=object), np.asarray(it.ref, dtype=object)
+        return (it.label, tuple(SV.lift(_plain(x)).e.get_id() for x in ca.ravel()), tuple(SV.lift(_plain(y)).e.get_id() for y in ra.ravel()))
+    except Exception:  # noqa: BLE001
+        return None
 
 
 def _discharge(rec, it, assumptions, mk, kwargs, key_prefix, timeout_ms, robust, per_entry_fallback):
